@@ -62,6 +62,9 @@ def main(argv=None) -> int:
     s.add_argument("pids", nargs="*")
     s.add_argument("-j", type=int, default=16)
     s.add_argument("-v", action="store_true")
+    s.add_argument("--json", default=None, help="also write the per-property counts and per-variant outcomes to this file")
+    x = sub.add_parser("cross", help="development: every equivalent variant against every other property's rule set")
+    x.add_argument("-j", type=int, default=16)
     sub.add_parser("list")
     e = sub.add_parser("explain")
     e.add_argument("report")
@@ -77,6 +80,9 @@ def main(argv=None) -> int:
         def go():
             res = run_selftest([p.upper() for p in a.pids] or ALL, jobs=a.j, seed=seed, quiet=not a.v)
             bad = 0
+            if a.json:
+                with open(a.json, "w", encoding="utf-8") as fh:
+                    json.dump(res, fh, indent=1, sort_keys=True, default=str)
             for pid, r in sorted(res.items()):
                 print(f"{pid}: mutants applied={r['applied']} killed={r['killed']} equivalents={r['equivalents']} silent={r['silent']} skipped={r['skipped']}")
                 for p in r["problems"]:
@@ -85,6 +91,18 @@ def main(argv=None) -> int:
             return 2 if bad else 0
 
         return guarded(go)
+    if a.cmd == "cross":
+        from .selftest import run_cross
+
+        def gox():
+            res = run_cross(ALL, jobs=a.j)
+            bad = [r for r in res if r["status"] not in ("silent", "skipped")]
+            print(f"cross self-test: {len(res)} (equivalent variant, other property) pairs, {sum(r['status'] == 'silent' for r in res)} silent, {sum(r['status'] == 'skipped' for r in res)} skipped, {len(bad)} not silent")
+            for r in bad:
+                print(f"   {r['owner']}/{r['id']} under {r['check']}: {r['status']} {r['detail']}")
+            return 2 if bad else 0
+
+        return guarded(gox)
     if a.cmd == "list":
         for pid in ALL:
             try:
